@@ -164,6 +164,9 @@ func mutantsOf(c *Ctx, o accountant.Vertex, other accountant.Vertex, stranger, s
 	add("vertex.signer.replaced", func(v *accountant.Vertex) { v.SignerPublicAddress = stranger.Address() })
 	add("vertex.signer.shortkey", func(v *accountant.Vertex) { v.SignerPublicAddress = badKeyAddress(31) })
 	add("vertex.signer.reencoded-version", func(v *accountant.Vertex) { v.SignerPublicAddress = altAddress(sealer.Public, 1+byte(r%255)) })
+	add("vertex.signer.padded-one", func(v *accountant.Vertex) { v.SignerPublicAddress = "1" + v.SignerPublicAddress })
+	add("vertex.signer.padded-ones", func(v *accountant.Vertex) { v.SignerPublicAddress = "111" + v.SignerPublicAddress })
+	add("issuer.padded-one", func(v *accountant.Vertex) { v.Transaction.IssuerAddress = "1" + v.Transaction.IssuerAddress })
 	add("vertex.signer.version-byte-only", func(v *accountant.Vertex) { v.SignerPublicAddress = versionOnlyAddress(sealer.Public, 1+byte(r%255)) })
 	add("issuer.version-byte-only", func(v *accountant.Vertex) { v.Transaction.IssuerAddress = versionOnlyAddress(iss.Public, 1+byte(r%255)) })
 	add("issuer.reencoded-version", func(v *accountant.Vertex) { v.Transaction.IssuerAddress = altAddress(iss.Public, 1+byte(r%255)) })
@@ -261,6 +264,12 @@ func init() {
 					if recv == nil {
 						recv = w.NewNode()
 						w.syncFrom(a, recv)
+						// every second round the receiving node TRUSTS the sealing node: trust exempts a vertex
+						// from the funds walk, never from verification
+						if round%2 == 1 {
+							recv.ab.AddTrustedNode(sealer.Address())
+							c.Count("receiver-trusts-sealer")
+						}
 					}
 					b := recv
 					before := ledgerKey(ptr(b.ab.VerifSnapshot()))
@@ -304,8 +313,15 @@ func init() {
 		{
 			gen := a.ab.VerifSnapshot().Vertices[0]
 			t, _ := transaction.New("self", spice.Melange{Currency: 2}, nil, rec.Address(), recSigner{iss})
-			for _, ver := range []byte{0, 1, 0xff} {
-				v, err := accountant.NewVertex(t, gen.Hash, gen.Hash, 51, aliasSigner{iss, altAddress(iss.Public, ver)})
+			for vi, ver := range []byte{0, 1, 0xff, 0, 0} {
+				alias := altAddress(iss.Public, ver)
+				if vi == 3 {
+					alias = "1" + iss.Address() // base58 renders a leading zero byte as '1': the same key behind a longer text
+				}
+				if vi == 4 {
+					alias = "11" + iss.Address()
+				}
+				v, err := accountant.NewVertex(t, gen.Hash, gen.Hash, 51, aliasSigner{iss, alias})
 				if err != nil {
 					continue
 				}
@@ -319,7 +335,7 @@ func init() {
 				b.cancel()
 				emit("TV %s | %d | %s %d", tvFields(&v), b2i(verr == nil), errTag(aerr), b2i(before != after))
 				c.Rep.Evals++
-				c.Distinct(fmt.Sprintf("self-seal/version-%d", ver))
+				c.Distinct(fmt.Sprintf("self-seal/version-%d/%d", ver, vi))
 				if aerr == nil {
 					info := map[string]interface{}{"section": "tamper", "scenario": "self-seal", "version_byte": ver}
 					c.Violate("C10", "self-sealed-via-reencoded-address", "a wallet sealed its own transfer under another encoding of its address and the vertex was admitted", info)
